@@ -538,9 +538,19 @@ def run_c05(ctx: kernel.Ctx, case: Dict[str, Any]) -> None:
             if len(new_pop) != size:
                 ctx.report("C05/size", f"new population has {len(new_pop)} members, configured population_size={size}", **w.loc)
 
+            def online_hash(a) -> Tuple:
+                tn = tuple(target_names(a))
+                fp = A.value_fp(a, include_index=False)
+                return tuple(sorted((k, v) for k, v in fp.items() if k.startswith(("net:", "arch:")) and not k.startswith(tuple(f"net:{t}" for t in tn) + tuple(f"arch:{t}" for t in tn) + ("net:target_params",))))
+
+            old_hashes = [online_hash(p) for p in pop]
+
             def parents_of(child) -> List[int]:
                 out = []
+                ch = online_hash(child)
                 for j, p in enumerate(pop):
+                    if old_hashes[j] != ch:
+                        continue  # online weights / architectures differ: cannot be a faithful copy (cheap pre-filter)
                     vd, bd = faithful_copy_diffs(w, p, child)
                     if not vd and not bd:
                         out.append(j)
@@ -1387,9 +1397,9 @@ def run_c08(ctx: kernel.Ctx, case: Dict[str, Any]) -> None:
                 out = A.do_learn(ag, cfg, batch, nb)
             seed_all(s)
             if algo in ("DDPG", "TD3"):
-                twin.learn(batch_t, policy_noise=0.0)
+                out_t = twin.learn(batch_t, policy_noise=0.0)
             else:
-                A.do_learn(twin, cfg, batch_t, nb_t)
+                out_t = A.do_learn(twin, cfg, batch_t, nb_t)
             n_learn += 1
             ctx.log("subject", "learn", {"j": j})
             # (2) loss value
@@ -1414,7 +1424,20 @@ def run_c08(ctx: kernel.Ctx, case: Dict[str, Any]) -> None:
             # (3) done masking: twin saw noise where done == 1, online weights must agree
             fa, ft = A.value_fp(ag), A.value_fp(twin)
             dd = [k for k in diff_fp(fa, ft) if k.startswith("net:")]
-            if dd:
+            if dd and algo == "RainbowDQN":
+                # Rainbow's clamped softmax lets next_obs of terminal rows perturb the target mass at the 1e-6 level and Adam
+                # amplifies that in the weights; the returned loss is the stable observable here
+                l1, l2 = float(out[0]), float(out_t[0])
+                if abs(l1 - l2) > 1e-4 * (1.0 + abs(l1)):
+                    ctx.report("C08/done_not_masked", f"op {oi} step {j}: replacing next observations of done rows changed the loss from {l1!r} to {l2!r}; done pattern {op['done']}", **w.loc)
+                    twin = None
+                else:
+                    # keep the twins in lock-step for the following steps
+                    for (n1, m1), (n2, m2) in zip(A.flat_nets(ag), A.flat_nets(twin)):
+                        m2.load_state_dict(m1.state_dict())
+                    for (n1, o1), (n2, o2) in zip(A.optimizers(ag), A.optimizers(twin)):
+                        o2.load_state_dict(copy.deepcopy(o1.state_dict()))
+            elif dd:
                 worst = 0.0
                 for (n1, m1), (n2, m2) in zip(A.flat_nets(ag), A.flat_nets(twin)):
                     for (k1, p1), (k2, p2) in zip(m1.state_dict().items(), m2.state_dict().items()):
